@@ -140,6 +140,34 @@ def oracle_case(ctx, specs, fixed, thr, rng):
         if not np.allclose(unitary_of(cr, nn), np_circuit_unitary(relabel(specs, mp), nn), atol=1e-8):
             ctx.violation("reindex_qubits is not the stated relabelling", {**case, "new_indices": new})
             return None
+    # transformations composed: the result of a repetition / concatenation is a circuit of its own - relabelling it in
+    # place must act once on every gate (no gate object shared between the repetitions or with the operands)
+    if idx and max(idx) < 8 and len(specs) <= 10 and rng.random() < 0.5:
+        for tag, mk in (("c * 2", lambda: c * 2), ("2 * c", lambda: 2 * c), ("c + c", lambda: c + c), ("(c * 2).copy()", lambda: (c * 2).copy())):
+            o2 = mk()
+            idx2 = sorted(o2._qubit_indices)
+            new2 = rng.sample(range(len(idx2) + 1), len(idx2))
+            try:
+                o2.reindex_qubits(new2)
+                V2 = unitary_of(o2, max(new2) + 1)
+            except Exception as e:
+                ctx.violation(f"reindex_qubits({new2}) on {tag} raises {vlib.err_name(e)}: {str(e)[:80]}", {**case, "new_indices": new2})
+                return None
+            if not unchanged(tag + " then reindex_qubits"):
+                return None
+            if not np.allclose(V2, np_circuit_unitary(relabel(specs * 2, dict(zip(idx2, new2))), max(new2) + 1), atol=1e-8):
+                ctx.violation(f"reindex_qubits({new2}) on {tag} is not the stated relabelling of the repeated circuit", {**case, "new_indices": new2})
+                return None
+        if used:
+            try:
+                o3 = (c * 2).trim_qubits()
+                ok3 = np.allclose(unitary_of(o3, len(used)), np_circuit_unitary(relabel(specs * 2, m), len(used)), atol=1e-8)
+            except Exception as e:
+                ctx.violation(f"trim_qubits on c * 2 raises {vlib.err_name(e)}: {str(e)[:80]}", case)
+                return None
+            if not ok3:
+                ctx.violation("trim_qubits on c * 2 is not the relabelling of the repeated circuit to the lowest indices", case)
+                return None
     if used and len(used) <= 3:
         st = stack(c, c)
         if not unchanged("stack"):
